@@ -557,6 +557,8 @@ def rule_recursive(prog, rep, rid='A-recursive'):
             continue
         sites = [x for x in walk(f.body) if x.get('kind') == 'IfStmt' and x.get('_macro') == 'Q_MUTEX_NEW' and any(
             y.get('kind') == 'CallExpr' and prog.callee_name(y) == 'pthread_mutexattr_settype' for y in walk(children(x)[1]))]
+        # the innermost `if` around the call is the one that selects the mutex kind
+        sites = [x for x in sites if not any(y is not x and y in sites for y in walk(children(x)[1]))]
         if not sites:
             continue
         rec = f.unit.resolve_typedef(f.rettype)[0] if f.rettype else None
